@@ -1,0 +1,78 @@
+//! Verification hook (only compiled with `--cfg remoc_verif`).
+//!
+//! Wraps every task spawned through [`exec::spawn`](super::spawn) in a poll-deferral
+//! adapter. A thread-local decision function installed by a test harness may ask the
+//! adapter to skip a poll: the task then re-wakes itself and returns `Pending`, which
+//! moves it to the back of the run queue of a current-thread runtime. Without a decider
+//! the adapter is transparent. No state of remoc is exposed.
+
+use std::{
+    cell::RefCell,
+    future::Future,
+    pin::Pin,
+    task::{Context, Poll},
+};
+
+use tokio::task::JoinHandle;
+
+/// Maximum number of consecutive deferrals of one task.
+const MAX_CONSECUTIVE: u8 = 3;
+
+thread_local! {
+    static DECIDER: RefCell<Option<Box<dyn FnMut() -> bool>>> = const { RefCell::new(None) };
+}
+
+/// Installs (or removes) the decision function for the current thread.
+///
+/// The function is called once per poll of every wrapped task and returns
+/// `true` if that poll should be deferred.
+pub fn set_decider(decider: Option<Box<dyn FnMut() -> bool>>) {
+    DECIDER.with(|d| *d.borrow_mut() = decider);
+}
+
+fn decide() -> bool {
+    DECIDER.with(|d| match d.try_borrow_mut() {
+        Ok(mut d) => match d.as_mut() {
+            Some(f) => f(),
+            None => false,
+        },
+        Err(_) => false,
+    })
+}
+
+/// Poll-deferral adapter.
+pub struct Deferred<F> {
+    fut: Pin<Box<F>>,
+    consecutive: u8,
+}
+
+impl<F> Deferred<F> {
+    /// Wraps a future.
+    pub fn new(fut: F) -> Self {
+        Self { fut: Box::pin(fut), consecutive: 0 }
+    }
+}
+
+impl<F: Future> Future for Deferred<F> {
+    type Output = F::Output;
+
+    fn poll(mut self: Pin<&mut Self>, cx: &mut Context<'_>) -> Poll<Self::Output> {
+        if self.consecutive < MAX_CONSECUTIVE && decide() {
+            self.consecutive += 1;
+            cx.waker().wake_by_ref();
+            return Poll::Pending;
+        }
+        self.consecutive = 0;
+        self.fut.as_mut().poll(cx)
+    }
+}
+
+/// Spawns a task wrapped in the poll-deferral adapter.
+#[track_caller]
+pub fn spawn<F>(future: F) -> JoinHandle<F::Output>
+where
+    F: Future + Send + 'static,
+    F::Output: Send + 'static,
+{
+    tokio::task::spawn(Deferred::new(future))
+}
